@@ -19,12 +19,8 @@ ASSUMPTIONS = ["eval_expression modelled as a function of (expression, environme
 
 
 def _open_hook(I, args, kwargs, st, node):
-    from vf.pyvc.models import new_file
-    mode = args[1] if len(args) > 1 else kwargs.get("mode", "r")
-    if "file_content" not in st.ghost:
-        from vf.pyvc.values import Unsupported
-        raise Unsupported("open() of an unmodelled file")
-    return [("val", new_file(I, st, mode, st.ghost["file_content"], args[0]), st)]
+    fn, mod, cls = I.index.functions["vf.specs.stubs.open_model"]
+    return I.call_function(fn, mod, cls, list(args), dict(kwargs), st, "vf.specs.stubs.open_model")
 
 
 def setup_engine(E):
@@ -69,7 +65,8 @@ def cases(E):
             cs.append(Case(H + "generate_data_contract", f"{k},{n} expressions", shape_gen(k, n),
                            target=["a816.parse.codegen.generate_" + (k if k != "pointer" else "dl")]))
     cs.append(Case(H + "binary_node_init_contract", "any file content",
-                   lambda B: {"path": "data/file.bin", "resolver": shapes.resolver(B), "content": B.symseq("content")}, target=[N + "BinaryNode.__init__"]))
+                   lambda B: {"path": "data/file.bin", "resolver": shapes.resolver(B), "content": B.symseq("content")}, target=[N + "BinaryNode.__init__"],
+                   overrides={"a816.parse.nodes.open": "vf.specs.stubs.open_model"}))
     cs.append(Case(H + "binary_node_contract", "any content, any in-window LoROM address", shape_bin,
                    target=[N + "BinaryNode.emit", N + "BinaryNode.pc_after"]))
     return cs
